@@ -1,10 +1,13 @@
 package core
 
 import (
+	"fmt"
 	"go/ast"
 	"go/constant"
 	"go/token"
 	"go/types"
+	"sort"
+	"strings"
 	"sync"
 
 	"golang.org/x/tools/go/ssa"
@@ -43,9 +46,24 @@ func FieldOf(v ssa.Value) (*types.Var, ssa.Value) {
 		return fieldVar(x.X.Type(), x.Field), x.X
 	case *ssa.Field:
 		return fieldVar(x.X.Type(), x.Field), x.X
+	case *ssa.Parameter:
+		// an unexported function with a single static call site that is handed a field (or its address):
+		// inside it the parameter denotes that field
+		deferMu.Lock()
+		arg := paramArg[x]
+		deferMu.Unlock()
+		if arg != nil {
+			if _, again := Unwrap(arg).(*ssa.Parameter); !again {
+				return FieldOf(arg)
+			}
+		}
 	}
 	return nil, nil
 }
+
+// paramArg: parameter of a single-call-site unexported function -> the argument at that site
+// (filled by indexDeferred).
+var paramArg = map[*ssa.Parameter]ssa.Value{}
 
 func fieldVar(t types.Type, idx int) *types.Var {
 	if p, ok := t.Underlying().(*types.Pointer); ok {
@@ -61,6 +79,13 @@ func fieldVar(t types.Type, idx int) *types.Var {
 // ConstInt extracts an integer constant.
 func ConstInt(v ssa.Value) (int64, bool) {
 	c, ok := Unwrap(v).(*ssa.Const)
+	if ok && c.Value != nil && c.Value.Kind() == constant.Bool {
+		// a 0/1 flag kept in an atomic.Bool: false/true play the roles of 0/1
+		if constant.BoolVal(c.Value) {
+			return 1, true
+		}
+		return 0, true
+	}
 	if !ok || c.Value == nil || c.Value.Kind() != constant.Int {
 		if cv, ok2 := v.(*ssa.Convert); ok2 {
 			return ConstInt(cv.X)
@@ -332,32 +357,186 @@ const (
 // instruction. edgeOK (optional) filters CFG edges. Returns the target
 // instruction and the list of blocks on a path to it, or nil.
 func Search(from ssa.Instruction, startBlock *ssa.BasicBlock, visit func(ssa.Instruction) Action, edgeOK func(a, b *ssa.BasicBlock) bool) (ssa.Instruction, []*ssa.BasicBlock) {
+	return SearchAssume(from, startBlock, visit, edgeOK, nil)
+}
+
+// SearchAssume is Search with an oracle for "this value is certainly not nil", consulted only for values
+// flowing into φ-nodes. Rules pass the same non-nil standard they apply to returned error expressions.
+//
+// The search is path-sensitive in one respect: along each path it remembers, for the φ-nodes passed, whether
+// the incoming value was the nil constant, certainly non-nil, or a boolean constant (a φ fed by another φ
+// inherits). A branch whose condition is decided by that knowledge (`if ok`, `if err != nil` on such a φ) is
+// followed only on the feasible side. This is the residue of `return x, true` / `return nil, false` helpers and
+// of `err = a(); if err != nil { return err }` merges; without it every inlined helper with two exits looks
+// like it can take both continuations from either exit. Pruning only removes infeasible paths.
+func SearchAssume(from ssa.Instruction, startBlock *ssa.BasicBlock, visit func(ssa.Instruction) Action, edgeOK func(a, b *ssa.BasicBlock) bool, nonNil func(ssa.Value) bool) (ssa.Instruction, []*ssa.BasicBlock) {
+	t, path, ok := searchPS(from, startBlock, visit, edgeOK, nonNil, true)
+	if !ok {
+		// state budget exhausted: fall back to the path-insensitive search (explores a superset of the paths)
+		t, path, _ = searchPS(from, startBlock, visit, edgeOK, nonNil, false)
+	}
+	return t, path
+}
+
+const (
+	clsNil int8 = iota + 1
+	clsNonNil
+	clsTrue
+	clsFalse
+)
+
+type phiEnv map[*ssa.Phi]int8
+
+func (e phiEnv) sig() string {
+	if len(e) == 0 {
+		return ""
+	}
+	type kv struct {
+		p *ssa.Phi
+		c int8
+	}
+	var l []kv
+	for p, c := range e {
+		l = append(l, kv{p, c})
+	}
+	sort.Slice(l, func(i, j int) bool {
+		if l[i].p.Block().Index != l[j].p.Block().Index {
+			return l[i].p.Block().Index < l[j].p.Block().Index
+		}
+		return InstrIndex(l[i].p) < InstrIndex(l[j].p)
+	})
+	var sb strings.Builder
+	for _, x := range l {
+		fmt.Fprintf(&sb, "%d.%d=%d;", x.p.Block().Index, InstrIndex(x.p), x.c)
+	}
+	return sb.String()
+}
+
+func classifyEdge(v ssa.Value, env phiEnv, oracle func(ssa.Value) bool) int8 {
+	switch x := v.(type) {
+	case *ssa.Const:
+		if x.IsNil() {
+			return clsNil
+		}
+		if x.Value != nil && x.Value.Kind() == constant.Bool {
+			if constant.BoolVal(x.Value) {
+				return clsTrue
+			}
+			return clsFalse
+		}
+		return 0
+	case *ssa.Phi:
+		return env[x]
+	case *ssa.MakeInterface, *ssa.Alloc, *ssa.MakeSlice, *ssa.MakeMap, *ssa.MakeChan, *ssa.MakeClosure, *ssa.Function:
+		return clsNonNil
+	}
+	if oracle != nil && oracle(v) {
+		return clsNonNil
+	}
+	return 0
+}
+
+// evalCond: the value of a branch condition under env, if decided.
+func evalCond(v ssa.Value, env phiEnv, d int) (bool, bool) {
+	if d > 4 {
+		return false, false
+	}
+	switch x := v.(type) {
+	case *ssa.Const:
+		if x.Value != nil && x.Value.Kind() == constant.Bool {
+			return constant.BoolVal(x.Value), true
+		}
+	case *ssa.Phi:
+		switch env[x] {
+		case clsTrue:
+			return true, true
+		case clsFalse:
+			return false, true
+		}
+	case *ssa.UnOp:
+		if x.Op == token.NOT {
+			if r, ok := evalCond(x.X, env, d+1); ok {
+				return !r, true
+			}
+		}
+	case *ssa.BinOp:
+		if x.Op != token.EQL && x.Op != token.NEQ {
+			return false, false
+		}
+		cls := func(o ssa.Value) int8 {
+			switch y := o.(type) {
+			case *ssa.Const:
+				if y.IsNil() {
+					return clsNil
+				}
+			case *ssa.Phi:
+				if c := env[y]; c == clsNil || c == clsNonNil {
+					return c
+				}
+			}
+			return 0
+		}
+		a, b := cls(x.X), cls(x.Y)
+		if a == 0 || b == 0 {
+			return false, false
+		}
+		if a == clsNonNil && b == clsNonNil {
+			return false, false
+		}
+		eq := a == b // both nil
+		if x.Op == token.NEQ {
+			return !eq, true
+		}
+		return eq, true
+	}
+	return false, false
+}
+
+// curEnv is the φ knowledge of the path on which the running search is calling its visit function
+// (the checker is single-threaded per process).
+var (
+	curEnv    phiEnv
+	curOracle func(ssa.Value) bool
+)
+
+// PathNil / PathNonNil: inside a visit callback, what the current path knows about v (a φ passed on this
+// path, a constant, or a value the search's oracle vouches for).
+func PathNil(v ssa.Value) bool    { return classifyEdge(v, curEnv, nil) == clsNil }
+func PathNonNil(v ssa.Value) bool { return classifyEdge(v, curEnv, curOracle) == clsNonNil }
+
+func searchPS(from ssa.Instruction, startBlock *ssa.BasicBlock, visit func(ssa.Instruction) Action, edgeOK func(a, b *ssa.BasicBlock) bool, oracle func(ssa.Value) bool, sensitive bool) (ssa.Instruction, []*ssa.BasicBlock, bool) {
 	type item struct {
 		b    *ssa.BasicBlock
 		i    int
-		only int // -1: every successor; k: only successor k is feasible given the edge this block was entered by
+		env  phiEnv
 		path []*ssa.BasicBlock
 	}
 	type key struct {
-		b    *ssa.BasicBlock
-		only int
+		b   *ssa.BasicBlock
+		sig string
 	}
 	var stack []item
 	seen := map[key]bool{}
 	if from != nil {
-		stack = append(stack, item{from.Block(), InstrIndex(from) + 1, -1, []*ssa.BasicBlock{from.Block()}})
+		stack = append(stack, item{from.Block(), InstrIndex(from) + 1, nil, []*ssa.BasicBlock{from.Block()}})
 	} else {
-		stack = append(stack, item{startBlock, 0, -1, []*ssa.BasicBlock{startBlock}})
-		seen[key{startBlock, -1}] = true
+		stack = append(stack, item{startBlock, 0, nil, []*ssa.BasicBlock{startBlock}})
+		seen[key{startBlock, ""}] = true
 	}
+	states := 0
 	for len(stack) > 0 {
 		it := stack[len(stack)-1]
 		stack = stack[:len(stack)-1]
+		states++
+		if sensitive && states > 20000 {
+			return nil, nil, false
+		}
 		blocked := false
+		curEnv, curOracle = it.env, oracle
 		for i := it.i; i < len(it.b.Instrs); i++ {
 			switch visit(it.b.Instrs[i]) {
 			case Target:
-				return it.b.Instrs[i], it.path
+				return it.b.Instrs[i], it.path, true
 			case Barrier:
 				blocked = true
 			}
@@ -368,126 +547,61 @@ func Search(from ssa.Instruction, startBlock *ssa.BasicBlock, visit func(ssa.Ins
 		if blocked {
 			continue
 		}
+		only := -1
+		if sensitive && len(it.b.Instrs) > 0 {
+			if ifi, ok := it.b.Instrs[len(it.b.Instrs)-1].(*ssa.If); ok {
+				if v, known := evalCond(ifi.Cond, it.env, 0); known {
+					only = 1
+					if v {
+						only = 0
+					}
+				}
+			}
+		}
 		for si, s := range it.b.Succs {
-			if it.only >= 0 && si != it.only {
-				continue // infeasible: the branch condition is a φ whose value on the entering edge is a constant
+			if only >= 0 && si != only {
+				continue // infeasible on this path
 			}
 			if edgeOK != nil && !edgeOK(it.b, s) {
 				continue
 			}
-			only := phiDecidedSucc(s, it.b)
-			if seen[key{s, -1}] || seen[key{s, only}] {
+			var env phiEnv
+			if sensitive {
+				// which predecessor slot of s is this edge? (ambiguous when it.b appears twice)
+				pi, n := -1, 0
+				for i, p := range s.Preds {
+					if p == it.b {
+						pi = i
+						n++
+					}
+				}
+				env = phiEnv{}
+				for p, c := range it.env {
+					env[p] = c
+				}
+				for _, in := range s.Instrs {
+					phi, ok := in.(*ssa.Phi)
+					if !ok {
+						break
+					}
+					delete(env, phi)
+					if n == 1 && pi < len(phi.Edges) {
+						if c := classifyEdge(phi.Edges[pi], it.env, oracle); c != 0 {
+							env[phi] = c
+						}
+					}
+				}
+			}
+			k := key{s, env.sig()}
+			if seen[k] || (sensitive && k.sig != "" && seen[key{s, ""}] && false) {
 				continue
 			}
-			seen[key{s, only}] = true
+			seen[k] = true
 			np := append(append([]*ssa.BasicBlock{}, it.path...), s)
-			stack = append(stack, item{s, 0, only, np})
+			stack = append(stack, item{s, 0, env, np})
 		}
 	}
-	return nil, nil
-}
-
-// phiDecidedSucc: block b ends in an If whose condition, given that b was entered from pred, is a constant
-// (a φ of b with a constant on that edge, possibly negated or compared with a constant / nil). Returns the
-// index of the only feasible successor, or -1. This is the residue of an inlined `return x, true` /
-// `return nil, false` helper and of `ok := false; if c { ok = true }; if ok {...}` code.
-func phiDecidedSucc(b, pred *ssa.BasicBlock) int {
-	if len(b.Instrs) == 0 {
-		return -1
-	}
-	ifi, ok := b.Instrs[len(b.Instrs)-1].(*ssa.If)
-	if !ok {
-		return -1
-	}
-	pi := -1
-	for i, p := range b.Preds {
-		if p == pred {
-			if pi >= 0 {
-				return -1 // entered by two edges from the same block
-			}
-			pi = i
-		}
-	}
-	if pi < 0 {
-		return -1
-	}
-	v, known := evalOnEdge(ifi.Cond, b, pi, 0)
-	if !known {
-		return -1
-	}
-	if v {
-		return 0
-	}
-	return 1
-}
-
-// constOnEdge: the value of v when block b is entered by predecessor #pi, if that is a constant or a
-// value that is certainly not nil.
-func constOnEdge(v ssa.Value, b *ssa.BasicBlock, pi int) (c *ssa.Const, nonNil bool, ok bool) {
-	if phi, isPhi := v.(*ssa.Phi); isPhi && phi.Block() == b && pi < len(phi.Edges) {
-		v = phi.Edges[pi]
-	} else if _, isPhi := v.(*ssa.Phi); isPhi {
-		return nil, false, false
-	}
-	switch x := v.(type) {
-	case *ssa.Const:
-		return x, false, true
-	case *ssa.MakeInterface, *ssa.Alloc, *ssa.MakeSlice, *ssa.MakeMap, *ssa.MakeChan, *ssa.MakeClosure, *ssa.Function:
-		return nil, true, true
-	}
-	return nil, false, false
-}
-
-func evalOnEdge(v ssa.Value, b *ssa.BasicBlock, pi int, d int) (val bool, known bool) {
-	if d > 4 {
-		return false, false
-	}
-	switch x := v.(type) {
-	case *ssa.Const:
-		if x.Value != nil && x.Value.Kind() == constant.Bool {
-			return constant.BoolVal(x.Value), true
-		}
-	case *ssa.Phi:
-		if x.Block() == b && pi < len(x.Edges) {
-			if c, ok := x.Edges[pi].(*ssa.Const); ok && c.Value != nil && c.Value.Kind() == constant.Bool {
-				return constant.BoolVal(c.Value), true
-			}
-		}
-	case *ssa.UnOp:
-		if x.Op == token.NOT && x.Block() == b {
-			if r, ok := evalOnEdge(x.X, b, pi, d+1); ok {
-				return !r, true
-			}
-		}
-	case *ssa.BinOp:
-		if x.Block() != b || (x.Op != token.EQL && x.Op != token.NEQ) {
-			return false, false
-		}
-		cx, nnx, okx := constOnEdge(x.X, b, pi)
-		cy, nny, oky := constOnEdge(x.Y, b, pi)
-		if !okx || !oky {
-			return false, false
-		}
-		eq, decided := false, false
-		switch {
-		case cx != nil && cy != nil:
-			if cx.IsNil() || cy.IsNil() {
-				eq, decided = cx.IsNil() && cy.IsNil(), true
-			} else if cx.Value != nil && cy.Value != nil && cx.Value.Kind() == cy.Value.Kind() {
-				eq, decided = constant.Compare(cx.Value, token.EQL, cy.Value), true
-			}
-		case nnx && cy != nil && cy.IsNil(), nny && cx != nil && cx.IsNil():
-			eq, decided = false, true
-		}
-		if !decided {
-			return false, false
-		}
-		if x.Op == token.NEQ {
-			return !eq, true
-		}
-		return eq, true
-	}
-	return false, false
+	return nil, nil, true
 }
 
 // PathString renders a block path as file:line list.
@@ -607,6 +721,7 @@ func (p *Prog) indexDeferred() {
 	type use struct {
 		n      int
 		defers []*ssa.Function
+		calls  []*ssa.Call
 	}
 	uses := map[*ssa.Function]*use{}
 	for _, fn := range p.Funcs {
@@ -628,6 +743,9 @@ func (p *Prog) indexDeferred() {
 				if d, ok := in.(*ssa.Defer); ok && !d.Call.IsInvoke() && d.Call.Value == ssa.Value(g) {
 					u.defers = append(u.defers, fn)
 				}
+				if cl, ok := in.(*ssa.Call); ok && !cl.Call.IsInvoke() && cl.Call.Value == ssa.Value(g) {
+					u.calls = append(u.calls, cl)
+				}
 			}
 		})
 	}
@@ -636,16 +754,26 @@ func (p *Prog) indexDeferred() {
 	for _, fn := range p.Funcs {
 		inFuncs[fn] = true
 	}
+	// bound-method wrappers: `x.m` used as a func value. A wrapper that is instantiated at exactly one place
+	// makes m the closure of that place (c.invokeMethod(c.fireRead) instead of c.invokeMethod(func(){...})).
+	wrapperOf := map[*ssa.Function]*ssa.Function{} // wrapper -> method
 	for fn := range ssautilAll(p) {
 		if fn.Synthetic == "" || fn.Blocks == nil || inFuncs[fn] {
 			continue
 		}
+		isBound := strings.Contains(fn.Synthetic, "bound method wrapper")
 		AllInstrs(fn, func(in ssa.Instruction) {
 			for _, op := range in.Operands(nil) {
 				if *op == nil {
 					continue
 				}
 				if g, ok := (*op).(*ssa.Function); ok {
+					if isBound {
+						if cc := CallCommon(in); cc != nil && !cc.IsInvoke() && cc.Value == ssa.Value(g) {
+							wrapperOf[fn] = g
+							continue
+						}
+					}
 					if u := uses[g]; u != nil {
 						u.n += 100
 					}
@@ -653,10 +781,44 @@ func (p *Prog) indexDeferred() {
 			}
 		})
 	}
+	boundSites := map[*ssa.Function][]*ssa.Function{} // method -> functions that instantiate its wrapper
+	for w, g := range wrapperOf {
+		if u := uses[w]; u != nil {
+			// every use of the wrapper must be a MakeClosure (counted in uses[w].n by the first loop)
+			n := 0
+			var where []*ssa.Function
+			for _, fn := range p.Funcs {
+				AllInstrs(fn, func(in ssa.Instruction) {
+					if mc, ok := in.(*ssa.MakeClosure); ok && mc.Fn == ssa.Value(w) {
+						n++
+						where = append(where, fn)
+					}
+				})
+			}
+			if n == u.n {
+				boundSites[g] = append(boundSites[g], where...)
+			} else {
+				boundSites[g] = append(boundSites[g], nil, nil) // used in some other way: not closure-like
+			}
+		}
+	}
 	deferMu.Lock()
 	defer deferMu.Unlock()
 	for _, g := range p.Funcs {
 		u := uses[g]
+		if u != nil && u.n == 1 && len(u.calls) == 1 && g.Parent() == nil && g.Name() != "" && !ast.IsExported(g.Name()) && u.calls[0].Parent() != g && len(u.calls[0].Call.Args) == len(g.Params) {
+			for i, prm := range g.Params {
+				paramArg[prm] = u.calls[0].Call.Args[i]
+			}
+		}
+		if (u == nil || u.n == 0) && len(boundSites[g]) == 1 && boundSites[g][0] != nil && g.Parent() == nil && g.Name() != "" && !ast.IsExported(g.Name()) {
+			owner := boundSites[g][0]
+			if owner != g && owner.Parent() != g {
+				deferOwner[g] = owner
+				deferredBy[owner] = append(deferredBy[owner], g)
+			}
+			continue
+		}
 		if u == nil || u.n != 1 || len(u.defers) != 1 || g.Parent() != nil || u.defers[0] == g {
 			continue
 		}
@@ -698,10 +860,21 @@ func CondOf(ifi *ssa.If) *Cond {
 			return c
 		}
 	}
+	// a 0/1 flag kept in an atomic.Bool: `if flag.Load()` reads as `Load(flag) != 0`
+	if in, ok := v.(ssa.Instruction); ok {
+		if a := AsAtomic(in); a != nil && a.Kind == "load" && a.Field != nil {
+			if bt, ok := v.Type().Underlying().(*types.Basic); ok && bt.Kind() == types.Bool {
+				c.X, c.Y, c.Op = v, falseConst, token.NEQ
+				return c
+			}
+		}
+	}
 	c.X = v
 	c.Op = token.ILLEGAL
 	return c
 }
+
+var falseConst = ssa.NewConst(constant.MakeBool(false), types.Typ[types.Bool])
 
 // EdgeDominates: every path to block b passes the CFG edge from->to.
 func EdgeDominates(from, to, b *ssa.BasicBlock) bool {
